@@ -1097,6 +1097,18 @@ fn build_prf(
                             (b64url(&id), Some(id))
                         }
                         KeyRef::Raw(s) => (s.clone(), None),
+                        KeyRef::Spelled(r, mode) => {
+                            let id = resolve_id(r, creds, rp);
+                            let url = b64url(&id);
+                            let pad = "=".repeat((4 - url.len() % 4) % 4);
+                            let std = url.replace('-', "+").replace('_', "/");
+                            let key = match mode % 3 {
+                                1 => format!("{url}{pad}"),
+                                2 => format!("{std}{pad}"),
+                                _ => std,
+                            };
+                            (key, Some(id))
+                        }
                     };
                     out.push((key.clone(), id, v.clone()));
                     (key, prf_vals(v))
@@ -1158,9 +1170,12 @@ fn misc_of(seed: u64) -> Misc {
             _ => Some(vec![*r.pick(&[H::SecurityKey, H::ClientDevice, H::Hybrid]), H::Hybrid]),
         },
         attestation: *r.pick(&[A::None, A::Indirect, A::Direct, A::Enterprise]),
-        formats: match r.below(3) {
+        formats: match r.below(5) {
             0 => None,
             1 => Some(vec![F::None]),
+            // formats are a preference, not a requirement: lists without "none", and an empty one
+            2 => Some(vec![F::Packed, F::Tpm]),
+            3 => Some(vec![]),
             _ => Some(vec![*r.pick(&[F::Packed, F::Tpm, F::AndroidKey, F::AndroidSafetynet, F::FidoU2f, F::Apple]), F::None]),
         },
         attachment: match r.below(3) {
@@ -1213,6 +1228,39 @@ fn ctap_prf_out(v: &AuthenticatorPrfValues) -> (Vec<u8>, Option<Vec<u8>>) {
     (v.first.to_vec(), v.second.map(|b| b.to_vec()))
 }
 
+/// A request as it travels over a transport: encoded to CBOR and decoded again by the library's own
+/// deserialiser. In the minimal encoding (mode 2) a platform omits options that have their default value
+/// (rk=false, up=true, uv=false); `options_key` is the integer key of the options member.
+fn through_cbor<T: Serialize + serde::de::DeserializeOwned>(request: T, mode: u8, options_key: i64) -> T {
+    use ciborium::value::Value;
+    if mode == 0 {
+        return request;
+    }
+    let mut bytes = Vec::new();
+    if ciborium::ser::into_writer(&request, &mut bytes).is_err() {
+        return request;
+    }
+    if mode >= 2 {
+        if let Ok(Value::Map(mut m)) = ciborium::de::from_reader::<Value, _>(bytes.as_slice()) {
+            for (k, v) in m.iter_mut() {
+                if *k == Value::Integer(options_key.into()) {
+                    if let Value::Map(opts) = v {
+                        opts.retain(|(name, val)| !matches!((name.as_text(), val), (Some("rk"), Value::Bool(false)) | (Some("up"), Value::Bool(true)) | (Some("uv"), Value::Bool(false))));
+                    }
+                }
+            }
+            let mut out = Vec::new();
+            if ciborium::ser::into_writer(&Value::Map(m), &mut out).is_ok() {
+                bytes = out;
+            }
+        }
+    }
+    match ciborium::de::from_reader::<T, _>(bytes.as_slice()) {
+        Ok(r) => r,
+        Err(_) => request,
+    }
+}
+
 fn build_mc_request(s: &McSpec, op: &Op, creds: &[ModelCred], resolved: &mut Resolved) -> ctap2::make_credential::Request {
     let exclude = s
         .exclude
@@ -1230,7 +1278,7 @@ fn build_mc_request(s: &McSpec, op: &Op, creds: &[ModelCred], resolved: &mut Res
         prf: s.prf.as_ref().map(|p| ctap_prf(p, creds, &s.rp_id, &mut resolved.ctap_by_cred)),
     }
     .zip_contents();
-    ctap2::make_credential::Request {
+    let request = ctap2::make_credential::Request {
         client_data_hash: s.cdh.clone().into(),
         rp: ctap2::make_credential::PublicKeyCredentialRpEntity { id: s.rp_id.clone(), name: Some(sim_name(s.names, "Sim relying party")) },
         user: webauthn::PublicKeyCredentialUserEntity {
@@ -1244,7 +1292,8 @@ fn build_mc_request(s: &McSpec, op: &Op, creds: &[ModelCred], resolved: &mut Res
         options: ctap2::make_credential::Options { rk: s.rk, up: s.up, uv: s.uv },
         pin_auth: s.pin_auth.then(|| if s.pin_empty { Vec::new() } else { vec![1u8; 16] }.into()),
         pin_protocol: s.pin_auth.then_some(1),
-    }
+    };
+    through_cbor(request, s.via_cbor, 7)
 }
 
 fn mc_result(res: Cancellable<Result<ctap2::make_credential::Response, StatusCode>>) -> OpResult {
@@ -1274,7 +1323,7 @@ fn build_ga_request(s: &GaSpec, op: &Op, creds: &[ModelCred], resolved: &mut Res
         prf: s.prf.as_ref().map(|p| ctap_prf(p, creds, &s.rp_id, &mut resolved.ctap_by_cred)),
     }
     .zip_contents();
-    ctap2::get_assertion::Request {
+    let request = ctap2::get_assertion::Request {
         rp_id: s.rp_id.clone(),
         client_data_hash: s.cdh.clone().into(),
         allow_list: allow.as_ref().map(|l| descriptors(l, &op.unknown_type, &op.list_transports)),
@@ -1282,7 +1331,8 @@ fn build_ga_request(s: &GaSpec, op: &Op, creds: &[ModelCred], resolved: &mut Res
         options: ctap2::get_assertion::Options { rk: s.rk, up: s.up, uv: s.uv },
         pin_auth: s.pin_auth.then(|| if s.pin_empty { Vec::new() } else { vec![1u8; 16] }.into()),
         pin_protocol: s.pin_auth.then_some(1),
-    }
+    };
+    through_cbor(request, s.via_cbor, 5)
 }
 
 fn ga_result(res: Cancellable<Result<ctap2::get_assertion::Response, StatusCode>>) -> OpResult {
@@ -1507,10 +1557,13 @@ async fn run_op(
                     Ok(v) => v,
                     Err(e) => return OpResult::Skipped(format!("options do not serialise: {e}")),
                 };
-                if s.via_json >= 2 {
+                if s.via_json == 2 || s.via_json == 3 {
                     if let Some(sel) = v.pointer_mut("/publicKey/authenticatorSelection").and_then(|x| x.as_object_mut()) {
                         sel.insert("residentKey".into(), serde_json::Value::from(if s.via_json == 2 { "mandatory" } else { "" }));
                     }
+                }
+                if s.via_json == 4 {
+                    respell_list_ids(v.pointer_mut("/publicKey/excludeCredentials"));
                 }
                 match serde_json::from_value::<webauthn::CredentialCreationOptions>(v) {
                     Ok(r) => r,
@@ -1596,6 +1649,21 @@ async fn run_op(
                     attestation_formats: misc.formats,
                     extensions,
                 },
+            };
+            let request = if s.via_json == 0 {
+                request
+            } else {
+                let mut v = match serde_json::to_value(&request) {
+                    Ok(v) => v,
+                    Err(e) => return OpResult::Skipped(format!("options do not serialise: {e}")),
+                };
+                if s.via_json == 4 {
+                    respell_list_ids(v.pointer_mut("/publicKey/allowCredentials"));
+                }
+                match serde_json::from_value::<webauthn::CredentialRequestOptions>(v) {
+                    Ok(r) => r,
+                    Err(e) => return OpResult::Skipped(format!("options do not parse back: {e}")),
+                }
             };
             let origin = origin_of(rp);
             let res = match &s.cdata {
@@ -1854,6 +1922,29 @@ impl passkey_client::ClientData<serde_json::Map<String, serde_json::Value>> for 
     }
     fn client_data_hash(&self) -> Option<Vec<u8>> {
         None
+    }
+}
+
+/// Relying parties may spell binary members in the standard base64 alphabet with padding (the decoder
+/// accepts both alphabets): rewrite the ids of a JSON descriptor list that way.
+fn respell_list_ids(list: Option<&mut serde_json::Value>) {
+    let Some(items) = list.and_then(|l| l.as_array_mut()) else { return };
+    for it in items {
+        let Some(id) = it.get("id").cloned() else { continue };
+        // ids serialise either as base64url text or (feature-dependent) in another form: decode what is text
+        let bytes: Option<Vec<u8>> = match &id {
+            serde_json::Value::String(s) => crate::model::b64url_decode(s),
+            serde_json::Value::Array(a) => a.iter().map(|x| x.as_u64().and_then(|n| u8::try_from(n).ok())).collect(),
+            _ => None,
+        };
+        if let Some(b) = bytes {
+            let url = b64url(&b);
+            let std = url.replace('-', "+").replace('_', "/");
+            let pad = "=".repeat((4 - std.len() % 4) % 4);
+            if let Some(obj) = it.as_object_mut() {
+                obj.insert("id".into(), serde_json::Value::from(format!("{std}{pad}")));
+            }
+        }
     }
 }
 
